@@ -68,6 +68,21 @@ claim('C11',
       'TLA+ spec (AppHistory.tla) + TLC exhaustive (action properties) + step-by-step replay of TLC-generated histories',
       'DESIGN.md 3/C11')
 
+claim('C13',
+      'Wsgi.tla is the WSGI call protocol as a state machine (Call, StartResponse with the exc_info rule, Yield, OpenFile/CloseFile, '
+      'Close; invariants StartedBeforeBody, StartBeforeBytes, HeadNoBody, FilesReleasedOnClose, ClosedMeansStarted) and WsgiWrap.tla '
+      'the documented partial order of wsgi_wrapper middlewares over application trees; both model-checked by TLC. Bound to the code '
+      'by trace validation: every response kind (Responses incl. streamed, rendered contexts, static files incl. missing/escaping, '
+      'redirects, 404/405/500, debug pages, meta pages, gzip/cache-processed, RerouteWSGI raised/as endpoint) x GET/HEAD/POST/OPTIONS x '
+      'header sets x 3 application variants is driven through the raw WSGI interface with a recording start_response, counting iterator '
+      'and tracked open(); TLC validates each recorded interaction against the protocol machine (Wsgi_Trace); the same requests run under '
+      'wsgiref.validate. TLC-enumerated application trees are built (constructor and empty constructor + add) and the observed wrapper '
+      'order is judged by TLC (WsgiWrap_Trace); RerouteWSGI is checked for environ identity, intact entries and verbatim relay.',
+      'Trusted: TLC; wsgiref.validate; the recording shims; wrappers of applications embedded after construction and the mutual order '
+      'of sibling applications (incl. types they share) are not decided.',
+      'TLA+ spec (Wsgi.tla, WsgiWrap.tla) + TLC + trace validation of recorded WSGI interactions (Wsgi_Trace.tla, WsgiWrap_Trace.tla)',
+      'DESIGN.md 3/C13')
+
 claim('C19',
       'TLC model-checks Reservoir.tla (algorithm shaped like Reservoir.add/resize refines the property relation; '
       'Bounded/OnlyAdded/NeverRaises/ExactCount in every reachable state, all replacement indices, all resize points) '
